@@ -9,7 +9,14 @@ RULE = ("cases = committed corpus + seeded generator of harness/src/bin/c12i.rs.
         "MarketDataInstrument, PublicTrades>(policy, subscriptions) on the script so far on a fresh paused-clock current-thread runtime and prints every init call (virtual time, "
         "number of subscriptions it was handed), every delivered item / error / notice (with its origin) / handler call with its tokio::time::Instant stamp, the number of such "
         "lines and the final status. Thorough additionally enumerates every script of <= 4 connections over a 9-symbol alphabet under the default policy (events) and a policy "
-        "with initial > max (handler): 2 x 7 380 scripts. A case is distinct by the SHA-1 of its op lines and non-trivial when the implementation's observation blocks differ at "
+        "with initial > max (handler): 2 x 7 380 scripts. "
+        "Input-domain families (separately seeded, appended after the random cases; 50 quick / N/10 thorough, one fifth each; exchange, mode and 1-300 "
+        "subscriptions drawn): dfail - 10-36 / 10-70 consecutive init failures between two successes, mostly under STREAM_RECONNECTION_POLICY (cap reached after ten, held, reset), "
+        "then more failures; dlong - scripts of 50-60 / 50-90 init outcomes; dbig - initial / max in {2^32-1, 2^32, 2^32+1, 5e9, 2^33} with multiplier 1 / 2 / 255, at most 3 "
+        "failures; dedge - initial == max, exact hits of the cap and one either side (125x2|63999,64000, 1x255|65024,65025,65026, ...) with failure runs of 2-11; dconn - "
+        "connections of 20-60 / 20-120 elements with bursts of 3-9 consecutive non-terminal errors (mostly one and the same, every kind), payloads {0,1,2,3,2^32,2^63,u64::MAX}, "
+        "InvalidSequence first / last / anywhere. "
+        "A case is distinct by the SHA-1 of its op lines and non-trivial when the implementation's observation blocks differ at "
         "least once")
 ASSUMPTIONS = [
     "list-level trace semantics of the combinators as in C12 (Model/Streams.lean): a run is what a consumer that keeps polling observes while the paused clock auto-advances; "
@@ -27,6 +34,8 @@ ASSUMPTIONS = [
     "(mutants C12I_no_termination / _origin_constant / _policy_ignored)",
     "the first init failing means init_market_stream returns Err (no stream exists); the property text's 're-initialisation' is read as attempts after the first success (as C12)",
     "tracing output (the info!/warn!/error! lines and the StreamKey in them) is not observed",
+    "the virtual time of one run stays below 29 * 2^30 ms (tokio's paused-clock timer wheel panics beyond it under the harness's far-future timeout, see props/C12.py): waits beyond "
+    "u32::MAX ms are generated with at most three failures; back-off values near u64::MAX are not generated",
 ]
 SOURCE_FILES = ["barter-data/src/streams/consumer.rs", "barter-data/src/streams/reconnect/stream.rs", "barter-data/src/streams/reconnect/mod.rs",
                 "barter-data/src/error.rs", "barter-data/src/lib.rs", "barter-data/src/exchange/mod.rs"]
